@@ -147,7 +147,9 @@ class Printer(PrinterBase):
         return f"{typ} {var} = {value};"
 
     def make_constant(self, like, value):
-        return f"ScalarLike({like.ref}, {value})"
+        # printing `like` (rather than using its reference name blindly)
+        # makes sure that it is defined before this constant is
+        return f"ScalarLike({self.tostring(like)}, {value})"
 
     def make_argument(self, arg):
         typ = self.get_type(arg)
